@@ -351,3 +351,30 @@ def current_null_edges(sc, fn):
 def entry_reach(cfg, fn, avoid=(), edge_filter=None):
     """instructions reachable from function entry without passing through `avoid`"""
     return cfg.reach(fn.entry.ins[0], avoid=avoid, include_start=True, edge_filter=edge_filter)
+
+_eff_memo = {}
+def effect_sites(sc, fn, pred, tag, depth=3):
+    """Instructions of fn that perform an effect: stores x with pred(fn, x, resolver) true, plus calls of functions of the
+    same scanner that perform it on every path from their entry to their return (callee summaries, to `depth` levels; the
+    callee's paths are taken with no-current-buffer edges removed).  Makes a verdict independent of whether the effect is
+    written inline or in an extracted helper.  `tag` names the predicate for memoisation."""
+    res = ir.Resolver(fn)
+    out = [x for x in fn.ins if x.op == 'store' and pred(fn, x, res)]
+    if depth <= 0: return out
+    for c in fn.ins:
+        if c.op not in ('call', 'invoke'): continue
+        name = sc.callee(c)
+        if name is None: continue
+        for g in sc.fns(name):
+            if g is fn: continue
+            k = (sc.v.name, g.name, tag, depth)
+            if k not in _eff_memo:
+                _eff_memo[k] = False        # recursion guard
+                sites = effect_sites(sc, g, pred, tag, depth - 1)
+                if sites:
+                    cfg = sc.prog.cfg(g)
+                    nulls = current_null_edges(sc, g)
+                    ef = lambda a, b, nulls=nulls: (a, b) not in nulls
+                    _eff_memo[k] = not any(y.op == 'ret' for y in entry_reach(cfg, g, avoid=sites, edge_filter=ef))
+            if _eff_memo[k]: out.append(c); break
+    return out
